@@ -136,6 +136,7 @@ type Path struct {
 	logArgs      []Value
 	tag          string
 	verified     []*verifiedSig
+	decodes      []*decodeAttempt
 }
 
 func (p *Path) nextChanID() int { p.chanID++; return p.chanID }
